@@ -608,7 +608,11 @@ class AllSensitive(Contract):
         S.old["T"] = tensor_of(S.a["state"]).content
 
     def ensures(self, I, S):
-        return [("C06.goal", bval(S.result) == GOAL(S.old["T"]))]
+        out = [("C06.goal", bval(S.result) == GOAL(S.old["T"]))]
+        if getattr(S, "callsite", False) and not S.sig.symbolic:
+            # bounded instances: reveal the definition so that counterexamples are realisable on the real code
+            out.append(("goal-def", GOAL(S.old["T"]) == goal_def(S.sig, S.old["T"])))
+        return out
 
     def frame(self, I, S):
         return [("state-untouched", tensor_of(S.a["state"]).content == S.old["T"])]
